@@ -503,6 +503,8 @@ class SymX:
         self.entry: FuncInfo | None = None
         self.notes: list[str] = []  # constructs that were approximated (diagnostics)
         self.box_site: dict[int, int] = {}  # box id -> id of the AST node that created it
+        self.box_loops: dict[int, tuple] = {}  # box id -> ids of the loops that were running when it was created
+        self.box_init: dict[int, Term] = {}  # box id -> contents at creation
         self.mutable_sites: set[int] | None = None  # creation sites whose containers are mutated / escape (known after a first pass)
         self._site: ast.AST | None = None
 
@@ -530,6 +532,8 @@ class SymX:
         self.frames = []
         self.atoms = {}
         self.box_site = {}
+        self.box_loops = {}
+        self.box_init = {}
         self._ids = itertools.count(1)
         self.notes = []
         self.mutable_sites = sites
@@ -562,7 +566,37 @@ class SymX:
         bid = self.fresh()
         if node is not None:
             self.box_site[bid] = id(node)
+        self.box_loops[bid] = tuple(l.id for l in self.loops)
+        self.box_init[bid] = init
         return ("box", bid, kind, init)
+
+    @staticmethod
+    def _snap(t: Term, st: State) -> Term:
+        """A container as it is *now*: its display is replaced by the contents accumulated by the mutations executed so far."""
+        if t[0] == "box":
+            cur = st.heap.get(("#box", t[1]))
+            if cur is not None and cur != t[3]:
+                return ("box", t[1], t[2], cur)
+        return t
+
+    def _mutate(self, recv: Term, name: str, args: tuple, st: State) -> None:
+        if recv[0] != "box":
+            return
+        key = ("#box", recv[1])
+        cur = st.heap.get(key, recv[3])
+        inside = [l.id for l in self.loops if l.id not in self.box_loops.get(recv[1], ())]
+        new: Term
+        if inside or cur[0] in ("unk", "loopvar"):
+            new = ("unk", f"contents of {recv[2]}#{recv[1]} filled in a loop", recv[1])
+        elif name in ("append", "add") and len(args) == 1:
+            new = ("binop", "+", cur, ("list", (args[0],)))
+        elif name in ("extend", "update") and len(args) == 1:
+            new = ("binop", "+", cur, args[0])
+        elif name == "appendleft" and len(args) == 1 or name == "insert" and len(args) == 2 and is_const(args[0], 0):
+            new = ("binop", "+", ("list", (args[-1],)), cur)
+        else:
+            new = ("unk", f"contents of {recv[2]}#{recv[1]} after {name}", self.fresh())
+        st.heap[key] = new
 
     @property
     def frame(self) -> Frame:
@@ -631,6 +665,8 @@ class SymX:
                 if a[0] == "phi":
                     return simplify(f_or([f_and([g, self.truth(("cmp", op, x, b))]) for g, x in a[1]]))
                 if a[0] in ("new", "box", "tuple", "list", "fstr", "fn", "cls", "lambda") and b[1] is None:
+                    return ("const", op == "is not")
+                if b[1] is None and _never_none(a):
                     return ("const", op == "is not")
             if (l[0] == "phi") != (r[0] == "phi") and op in ("==", "!=", "in", "not in"):
                 p_, other, left = (l, r, True) if l[0] == "phi" else (r, l, False)
@@ -848,7 +884,7 @@ class SymX:
 
     def _havoc_heap(self, st: State, keys: set, loop_id: int) -> None:
         for k in keys:
-            st.heap[k] = ("loopvar", f"{show(k[0])}.{k[1]}", loop_id)
+            st.heap[k] = ("loopvar", f"contents#{k[1]}" if k[0] == "#box" else f"{show(k[0])}.{k[1]}", loop_id)
 
     def _loop_body(self, loop: Loop, body: list[ast.stmt], make_state: Callable[[set], State]) -> set:
         """Runs the body once; if it stores into fields of objects, runs it again with those fields opaque. Returns the stored keys."""
@@ -863,6 +899,7 @@ class SymX:
             finally:
                 self.loops.pop()
             stored = {(e.recv, e.name) for e in self.events[mark:] if e.kind == "setattr"}
+            stored |= {("#box", e.recv[1]) for e in self.events[mark:] if e.kind == "mut" and e.recv is not None and e.recv[0] == "box" and e.recv[1] < loop.id}
             new = stored - changed
             if not new or attempt == 2:
                 return changed | stored
@@ -873,7 +910,7 @@ class SymX:
     def _for(self, s: ast.For, st: State) -> State:
         it = self.eval(s.iter, st)
         targets = _names_of_target(s.target)
-        assigned = _assigned_names(s.body) | targets
+        assigned = (_assigned_names(s.body) - self._inplace_only(s.body, st)) | targets
         early = _exits_early(s.body)
         gen = self._generator_callee(s.iter, st)
         if gen is not None:
@@ -901,8 +938,35 @@ class SymX:
             st = self._block(s.orelse, st)
         return st
 
+    def _inplace_only(self, body: list[ast.stmt], st: State) -> set[str]:
+        """Names that hold a container and are only updated in place (`xs += ...`) in the loop body: they keep their identity."""
+        aug: set[str] = set()
+        other: set[str] = set()
+        for b in body:
+            for n in _walk_own(b):
+                if isinstance(n, ast.AugAssign) and isinstance(n.target, ast.Name) and isinstance(n.op, (ast.Add, ast.BitOr)):
+                    aug.add(n.target.id)
+                elif isinstance(n, ast.Name) and isinstance(n.ctx, (ast.Store, ast.Del)):
+                    other.add(n.id)
+        # the Store context of an AugAssign target is visited as a Name as well: count plain stores separately
+        plain: set[str] = set()
+        for b in body:
+            for n in _walk_own(b):
+                tg: list[ast.AST] = []
+                if isinstance(n, ast.Assign):
+                    tg = list(n.targets)
+                elif isinstance(n, (ast.AnnAssign, ast.For, ast.AsyncFor, ast.NamedExpr)):
+                    tg = [n.target]
+                elif isinstance(n, (ast.With, ast.AsyncWith)):
+                    tg = [i.optional_vars for i in n.items if i.optional_vars is not None]
+                elif isinstance(n, ast.comprehension):
+                    tg = [n.target]
+                for t in tg:
+                    plain |= {x.id for x in ast.walk(t) if isinstance(x, ast.Name)}
+        return {n for n in aug - plain if st.env.get(n, ("x",))[0] == "box"}
+
     def _while(self, s: ast.While, st: State) -> State:
-        assigned = _assigned_names(s.body)
+        assigned = _assigned_names(s.body) - self._inplace_only(s.body, st)
         early = _exits_early(s.body)
         pre = st.copy()
         lid = self.fresh()
@@ -1046,12 +1110,20 @@ class SymX:
         if isinstance(target, ast.Name):
             st.env[target.id] = v
         elif isinstance(target, (ast.Tuple, ast.List)):
+            star = next((i for i, el in enumerate(target.elts) if isinstance(el, ast.Starred)), None)
+            if star is not None:
+                after = len(target.elts) - star - 1
+                for i, el in enumerate(target.elts):
+                    if i < star:
+                        self._assign(el, ("idx", v, const(i)), st, None)
+                    elif i == star:
+                        self._assign(el.value, ("slice", v, const(i) if i else NONE_T, const(-after) if after else NONE_T, NONE_T), st, None)
+                    else:
+                        self._assign(el, ("idx", v, const(i - len(target.elts))), st, None)
+                return
             items = self._unpack(v, len(target.elts), st)
             for i, el in enumerate(target.elts):
-                if isinstance(el, ast.Starred):
-                    self._assign(el.value, ("slice", v, const(i), NONE_T, NONE_T), st, None)
-                else:
-                    self._assign(el, items[i], st, None)
+                self._assign(el, items[i], st, None)
         elif isinstance(target, ast.Attribute):
             base = self.eval(target.value, st)
             st.heap[(base, target.attr)] = v
@@ -1081,6 +1153,7 @@ class SymX:
         op = _BINOPS.get(type(s.op), "?")
         if cur[0] == "box" and op in ("+", "|"):
             self._record("mut", ("method", "extend" if op == "+" else "update"), cur, "extend" if op == "+" else "update", (val,), (), st, s, None)
+            self._mutate(cur, "extend" if op == "+" else "update", (val,), st)
             return st
         self._assign(s.target, ("binop", op, cur, val), st, None)
         return st
@@ -1202,7 +1275,7 @@ class SymX:
 
     def _name(self, e: ast.Name, st: State) -> Term:
         if e.id in st.env:
-            return st.env[e.id]
+            return self._snap(st.env[e.id], st)
         # closures: enclosing frames of nested functions
         fi = self.fi
         if fi.outer is not None:
@@ -1248,8 +1321,10 @@ class SymX:
         return ("unk", name, 0)
 
     def _attr(self, base: Term, attr: str, st: State, node: ast.AST | None) -> Term:
+        if base[0] == "box":
+            base = ("box", base[1], base[2], ("unk", "", 0))  # fields are keyed by the identity of a container, not by its contents
         if (base, attr) in st.heap:
-            return st.heap[(base, attr)]
+            return self._snap(st.heap[(base, attr)], st)
         if base[0] == "phi":
             alts = [(g, self._attr(a, attr, st, node)) for g, a in base[1] if not is_const(a, None)]
             if alts:
@@ -1557,6 +1632,7 @@ class SymX:
         if name in MUTATORS:
             res = NONE_T
             self._record("mut", ("method", name), recv, name, args, kwargs, st, call, res)
+            self._mutate(recv, name, args, st)
             return res
         res = ("mcall", recv, name, args, kwargs)
         self._record("call", ("method", name), recv, name, args, kwargs, st, call, res)
@@ -1607,6 +1683,23 @@ class SymX:
 
 _BINOPS = {ast.Add: "+", ast.Sub: "-", ast.Mult: "*", ast.Div: "/", ast.FloorDiv: "//", ast.Mod: "%", ast.BitOr: "|", ast.BitAnd: "&", ast.BitXor: "^", ast.Pow: "**", ast.LShift: "<<", ast.RShift: ">>", ast.MatMult: "@"}
 _CMPOPS = {ast.Eq: "==", ast.NotEq: "!=", ast.Lt: "<", ast.LtE: "<=", ast.Gt: ">", ast.GtE: ">=", ast.Is: "is", ast.IsNot: "is not", ast.In: "in", ast.NotIn: "not in"}
+
+
+_NEVER_NONE_METHODS = {
+    "read", "read_text", "read_bytes", "resolve", "absolute", "relative_to", "with_suffix", "join", "replace", "strip", "lstrip", "rstrip", "split",
+    "rsplit", "format", "lower", "upper", "as_posix", "iterdir", "startswith", "endswith", "is_dir", "is_file", "exists", "keys", "values", "items",
+    "copy", "removeprefix", "removesuffix", "partition", "rpartition", "splitlines", "encode", "decode",
+}
+_NEVER_NONE_FUNCS = {"str", "list", "tuple", "set", "dict", "sorted", "len", "open", "repr", "int", "bool", "frozenset", "reversed", "zip", "map", "filter", "enumerate", "range"}
+_NEVER_NONE_LIBS = {"ast.parse", "pathlib.Path", "os.fspath", "os.listdir", "os.path.join", "os.path.dirname", "os.path.basename", "os.path.abspath", "os.path.relpath", "os.path.splitext", "os.path.split"}
+
+
+def _never_none(t: Term) -> bool:
+    if t[0] == "mcall":
+        return t[2] in _NEVER_NONE_METHODS
+    if t[0] == "call":
+        return t[1][0] == "builtin" and t[1][1] in _NEVER_NONE_FUNCS or t[1][0] == "lib" and t[1][1] in _NEVER_NONE_LIBS
+    return t[0] in ("binop", "comp", "yields", "set", "dict", "slice")
 
 
 def _direct_boxes(t: Term) -> list[Term]:
